@@ -1,1 +1,206 @@
-// harnesses for module m_time (included into /repo under cfg(kani))
+// C15: time tests.
+use super::*;
+use crate::find::matchers::entry::verif_kani::*;
+use crate::find::matchers::stat::verif_kani::{any_cv, want_cmp};
+
+const T40: i64 = 1i64 << 40;
+fn times_in_range(st: &libc::stat64) -> bool {
+    st.st_mtime >= 0 && st.st_mtime < T40 && st.st_atime >= 0 && st.st_atime < T40 && st.st_ctime >= 0 && st.st_ctime < T40
+}
+fn any_ftt() -> (FileTimeType, u8) {
+    match kani::any::<u8>() % 3 { 0 => (FileTimeType::Accessed, 0), 1 => (FileTimeType::Changed, 1), _ => (FileTimeType::Modified, 2) }
+}
+fn ts(st: &libc::stat64, which: u8) -> (i64, i64) {
+    match which { 0 => (st.st_atime, st.st_atime_nsec), 1 => (st.st_ctime, st.st_ctime_nsec), _ => (st.st_mtime, st.st_mtime_nsec) }
+}
+/// whole seconds of (now - t), for now >= t
+fn age_secs(now: (i64, i64), t: (i64, i64)) -> i64 { let mut ds = now.0 - t.0; if now.1 < t.1 { ds -= 1; } ds }
+
+// @harness props=C15 tier=quick cost=150
+// @exec FileTimeMatcher::{new,matches_impl}, FileTimeType::get_file_time, ChangeTime::changed, ComparableValue::imatches
+// @sym now and the record's three timestamps (seconds in 0..2^40, nanoseconds 0..10^9), N: u64, form N/+N/-N, kind a/c/m
+// @bounds timestamps below 2^40 s (year 36812); age >= 0 (the property's quantifier); -daystart off
+// @witness meta:stat12 now_s:u64 now_ns:u32 n:u64 form:u8 kind:u8
+// @replay age_days
+/// -atime/-ctime/-mtime N compare N with floor((now - timestamp)/86400), each on its own timestamp.
+#[kani::proof]
+#[kani::unwind(2)]
+#[kani::stub(alloc::fmt::format, fmt_stub)]
+fn c15_age_days() {
+    let (m, st) = any_metadata();
+    kani::assume(times_in_range(&st));
+    let now_s: u64 = kani::any(); let now_ns: u32 = kani::any();
+    kani::assume(now_s < (1u64 << 40) && now_ns < 1_000_000_000);
+    let (ftt, which) = any_ftt();
+    let t = ts(&st, which);
+    let now_p = (now_s as i64, now_ns as i64);
+    kani::assume(now_p >= t);
+    let now = UNIX_EPOCH + Duration::new(now_s, now_ns);
+    let entry = entry_with(m, 1, Follow::Never);
+    let (cv, k, n) = any_cv();
+    let matcher = FileTimeMatcher::new(ftt, cv, false);
+    let got = matcher.matches_impl(&entry, now);
+    let days = (age_secs(now_p, t) / 86400) as u64;
+    match got { Ok(g) => assert!(g == want_cmp(k, n, days)), Err(e) => { std::mem::forget(e); assert!(false); } }
+    kani::cover!(which == 1 && k == 1 && n == 3 && st.st_ctime != st.st_mtime && st.st_ctime != st.st_atime);
+    kani::cover!(k == 1 && n == 1 && age_secs(now_p, t) == 86400);
+    kani::cover!(k == 1 && n == 0 && age_secs(now_p, t) == 86399);
+    std::mem::forget(entry);
+}
+#[kani::proof]
+#[kani::unwind(2)]
+#[kani::stub(alloc::fmt::format, fmt_stub)]
+fn c15_age_days_canary() {
+    let (m, st) = any_metadata();
+    kani::assume(times_in_range(&st));
+    let now_s: u64 = kani::any();
+    kani::assume(now_s < (1u64 << 40) && (now_s as i64) >= st.st_mtime + 1);
+    let now = UNIX_EPOCH + Duration::new(now_s, 0);
+    let entry = entry_with(m, 1, Follow::Never);
+    let n: u64 = kani::any();
+    let matcher = FileTimeMatcher::new(FileTimeType::Modified, ComparableValue::EqualTo(n), false);
+    let got = matcher.matches_impl(&entry, now);
+    // wrong on purpose: rounds the age up to the next day
+    let days = ((now_s as i64 - st.st_mtime + 86399) / 86400) as u64;
+    match got { Ok(g) => assert!(g == (days == n)), Err(e) => { std::mem::forget(e); } }
+    std::mem::forget(entry);
+}
+
+// @harness props=C15 tier=quick cost=150
+// @exec FileAgeRangeMatcher::{new,matches_impl}, FileTimeType::get_file_time, ChangeTime::changed, ComparableValue::imatches
+// @sym as c15_age_days
+// @bounds timestamps below 2^40 s; age >= 0
+/// -amin/-cmin/-mmin N compare N with floor((now - timestamp)/60), each on its own timestamp.
+#[kani::proof]
+#[kani::unwind(2)]
+#[kani::stub(alloc::fmt::format, fmt_stub)]
+fn c15_age_minutes() {
+    let (m, st) = any_metadata();
+    kani::assume(times_in_range(&st));
+    let now_s: u64 = kani::any(); let now_ns: u32 = kani::any();
+    kani::assume(now_s < (1u64 << 40) && now_ns < 1_000_000_000);
+    let (ftt, which) = any_ftt();
+    let t = ts(&st, which);
+    let now_p = (now_s as i64, now_ns as i64);
+    kani::assume(now_p >= t);
+    let now = UNIX_EPOCH + Duration::new(now_s, now_ns);
+    let entry = entry_with(m, 1, Follow::Never);
+    let (cv, k, n) = any_cv();
+    let matcher = FileAgeRangeMatcher::new(ftt, cv, false);
+    let got = matcher.matches_impl(&entry, now);
+    let mins = (age_secs(now_p, t) / 60) as u64;
+    match got { Ok(g) => assert!(g == want_cmp(k, n, mins)), Err(e) => { std::mem::forget(e); assert!(false); } }
+    kani::cover!(which == 0 && k == 1 && n == 2 && st.st_atime != st.st_mtime);
+    kani::cover!(k == 1 && n == 1 && age_secs(now_p, t) == 60 && now_ns < t.1 as u32 + 1);
+    std::mem::forget(entry);
+}
+#[kani::proof]
+#[kani::unwind(2)]
+#[kani::stub(alloc::fmt::format, fmt_stub)]
+fn c15_age_minutes_canary() {
+    let (m, st) = any_metadata();
+    kani::assume(times_in_range(&st));
+    let now_s: u64 = kani::any();
+    kani::assume(now_s < (1u64 << 40) && (now_s as i64) >= st.st_atime);
+    let now = UNIX_EPOCH + Duration::new(now_s, 0);
+    let entry = entry_with(m, 1, Follow::Never);
+    let n: u64 = kani::any();
+    // wrong on purpose: -amin checked against mtime
+    let matcher = FileAgeRangeMatcher::new(FileTimeType::Accessed, ComparableValue::EqualTo(n), false);
+    let got = matcher.matches_impl(&entry, now);
+    kani::assume((now_s as i64) >= st.st_mtime);
+    let mins = ((now_s as i64 - st.st_mtime) / 60) as u64;
+    match got { Ok(g) => assert!(g == (mins == n)), Err(e) => { std::mem::forget(e); } }
+    std::mem::forget(entry);
+}
+
+// @harness props=C15 tier=quick cost=150 flags=nomem
+// @exec NewerMatcher::{new,matches_impl}, Follow::{root_metadata,metadata_at_depth}
+// @sym entry record; reference file F as a world (lstat/stat records), follow P/H/L; all timestamps (s in 0..2^40, ns)
+// @bounds timestamps below 2^40 s
+// @assume kernel contract for stat vs lstat; F exists and resolves (dangling reference outside)
+/// -newer F: entry.mtime > F.mtime strictly, at nanosecond resolution; F's record is the one the follow mode selects for a starting point.
+#[kani::proof]
+#[kani::unwind(3)]
+#[kani::stub(alloc::fmt::format, fmt_stub)]
+#[kani::stub(std::fs::metadata, stat_stub)]
+#[kani::stub(std::fs::symlink_metadata, lstat_stub)]
+fn c15_newer_strict() {
+    // F exists and resolves (s is a concrete Some: the error paths fold away; a dangling F is outside this harness)
+    let (fl, flst) = any_metadata();
+    let (fs, fsst) = any_metadata();
+    if !is_type(flst.st_mode, libc::S_IFLNK) { kani::assume(fsst.st_mtime == flst.st_mtime && fsst.st_mtime_nsec == flst.st_mtime_nsec); }
+    kani::assume(times_in_range(&flst) && times_in_range(&fsst));
+    unsafe { WORLD = World { l: Some(fl), s: Some(fs), s_err: 0 }; }
+    let follow = any_follow();
+    let (e, est) = any_metadata();
+    kani::assume(times_in_range(&est));
+    let matcher = match NewerMatcher::new("ref", follow) { Ok(m) => m, Err(e) => { std::mem::forget(e); assert!(false); return; } };
+    let entry = entry_with(e, 1, Follow::Never);
+    let got = matcher.matches_impl(&entry);
+    let f = if follow.follow_at_depth(0) { fsst } else { flst };
+    match got { Ok(g) => assert!(g == (ts(&est, 2) > ts(&f, 2))), Err(e) => { std::mem::forget(e); assert!(false); } }
+    kani::cover!(est.st_mtime == f.st_mtime && est.st_mtime_nsec == f.st_mtime_nsec + 1);
+    kani::cover!(est.st_mtime == f.st_mtime && est.st_mtime_nsec == f.st_mtime_nsec);
+    kani::cover!(follow == Follow::Roots && ts(&flst, 2) != ts(&fsst, 2));
+    std::mem::forget(entry);
+}
+#[kani::proof]
+#[kani::unwind(3)]
+#[kani::stub(alloc::fmt::format, fmt_stub)]
+#[kani::stub(std::fs::metadata, stat_stub)]
+#[kani::stub(std::fs::symlink_metadata, lstat_stub)]
+fn c15_newer_strict_canary() {
+    let (fl, flst) = any_metadata();
+    kani::assume(times_in_range(&flst));
+    unsafe { WORLD = World { l: Some(fl), s: None, s_err: 0 }; }
+    let (e, est) = any_metadata();
+    kani::assume(times_in_range(&est));
+    let matcher = match NewerMatcher::new("ref", Follow::Never) { Ok(m) => m, Err(e) => { std::mem::forget(e); return; } };
+    let entry = entry_with(e, 1, Follow::Never);
+    let got = matcher.matches_impl(&entry);
+    match got { Ok(g) => assert!(g == (ts(&est, 2) >= ts(&flst, 2))), Err(e) => { std::mem::forget(e); } } // non-strict: must FAIL
+    std::mem::forget(entry);
+}
+
+// @harness props=C15 tier=quick cost=60 flags=nomem
+// @exec NewerOptionMatcher::{new,matches_impl}, NewerOptionType::{from_str,get_file_time}, ChangeTime::changed
+// @sym entry record, reference record (three timestamps each, s in 0..2^40, ns), X and Y in {a,c,m}
+// @bounds timestamps below 2^40 s; B (birth time) excluded (statx extra fields are not modelled)
+// @replay newer_xy
+/// -newerXY F: entry.X > F.Y strictly, for all nine XY combinations over a, c, m.
+#[kani::proof]
+#[kani::unwind(2)]
+#[kani::stub(alloc::fmt::format, fmt_stub)]
+#[kani::stub(std::fs::metadata, stat_stub)]
+fn c15_newer_xy() {
+    let (e, est) = any_metadata();
+    let (r, rst) = any_metadata();
+    kani::assume(times_in_range(&est) && times_in_range(&rst));
+    unsafe { WORLD = World { l: None, s: Some(r), s_err: 0 }; }
+    let x: u8 = kani::any(); let y: u8 = kani::any();
+    kani::assume(x < 3 && y < 3);
+    let names = ["a", "c", "m"];
+    let matcher = match NewerOptionMatcher::new(names[x as usize], names[y as usize], "ref") { Ok(m) => m, Err(e) => { std::mem::forget(e); assert!(false); return; } };
+    let entry = entry_with(e, 1, Follow::Never);
+    let got = matcher.matches_impl(&entry);
+    match got { Ok(g) => assert!(g == (ts(&est, x) > ts(&rst, y))), Err(e) => { std::mem::forget(e); assert!(false); } }
+    kani::cover!(x == 2 && y == 0 && ts(&est, 2) > ts(&rst, 0) && ts(&est, 2) < ts(&rst, 2));
+    kani::cover!(x == 0 && y == 1 && ts(&est, 0) > ts(&rst, 1) && ts(&est, 1) < ts(&rst, 1));
+    std::mem::forget(entry);
+}
+#[kani::proof]
+#[kani::unwind(2)]
+#[kani::stub(alloc::fmt::format, fmt_stub)]
+#[kani::stub(std::fs::metadata, stat_stub)]
+fn c15_newer_xy_canary() {
+    let (e, est) = any_metadata();
+    let (r, rst) = any_metadata();
+    kani::assume(times_in_range(&est) && times_in_range(&rst));
+    unsafe { WORLD = World { l: None, s: Some(r), s_err: 0 }; }
+    let matcher = match NewerOptionMatcher::new("a", "c", "ref") { Ok(m) => m, Err(e) => { std::mem::forget(e); return; } };
+    let entry = entry_with(e, 1, Follow::Never);
+    let got = matcher.matches_impl(&entry);
+    match got { Ok(g) => assert!(g == (ts(&est, 0) > ts(&rst, 2))), Err(e) => { std::mem::forget(e); } } // Y ignored: must FAIL
+    std::mem::forget(entry);
+}
